@@ -97,7 +97,7 @@ def props_audit(pid, timeout):
     ok, out, fails, dt = coq_build(['Props/%s.vo' % pid], timeout)
     src = open(os.path.join(COQ, 'Props', pid + '.v')).read()
     names = re.findall(r'^Print Assumptions ([A-Za-z_0-9\']+)\.', src, re.M)
-    checks = re.findall(r'^Check ([A-Za-z_0-9\']+)\s*:', src, re.M)
+    checks = re.findall(r'^Check @?([A-Za-z_0-9\']+)\s*:', src, re.M)
     problems = []
     for n in names:
         if n not in checks:
@@ -155,6 +155,10 @@ def harness_build(bins, features, timeout):
     if not os.path.exists(lock) and os.path.exists(rl):
         shutil.copy(rl, lock)
     rc, out, dt = sh(cmd, timeout, cwd=HARNESS, env={'CARGO_TARGET_DIR': tdir})
+    if rc == 0 and features:
+        # the feature build overwrites target/debug/<bin>: keep it under its own name (both dependency sets stay cached)
+        for b in bins:
+            shutil.copy(os.path.join(tdir, 'debug', b), os.path.join(tdir, 'debug', '%s-%s' % (b, features)))
     return rc == 0, out, dt
 
 
@@ -177,7 +181,7 @@ def correspondence(pid, run, tier, seed, outdir, boost=1):
     name = run['name']
     cases = run.get(tier, run.get('quick', 50)) * boost
     bin_ = run['bin']
-    exe = os.path.join(TARGET, 'debug', bin_)
+    exe = os.path.join(TARGET, 'debug', bin_ + ('-' + run['features'] if run.get('features') else ''))
     cmd = [exe, run['mode'], '--seed', str(seed), '--cases', str(cases), '--out', outdir] + run.get('args', [])
     if boost > 1:
         cmd += ['--boost', str(boost)]
@@ -217,9 +221,13 @@ def correspondence(pid, run, tier, seed, outdir, boost=1):
                 r['errors'].append('no verdict for case %d in %s' % (k, os.path.basename(vf)))
                 continue
             c['_verdict'] = v
-            agree_flags = [v[i] for i in run['agree'] if i < len(v)]
-            mon_flags = [v[i] for i in run.get('monitors', []) if i < len(v)]
-            if len(v) <= max(run['agree'] + run.get('monitors', [])):
+            if 'layout' in run:       # per-case layout: (indices compared with the model, indices of monitors)
+                ai, mi = run['layout'](c, v)
+            else:
+                ai, mi = run['agree'], run.get('monitors', [])
+            agree_flags = [v[i] for i in ai if i < len(v)]
+            mon_flags = [v[i] for i in mi if i < len(v)]
+            if len(v) <= max(list(ai) + list(mi) + [0]):
                 r['errors'].append('short verdict for case %d' % k)
             if all(x == 1 for x in agree_flags):
                 r['agree'] += 1
@@ -326,7 +334,7 @@ def run_check(pid, P, tier, seed, replay, t0):
     hb_ok, hb_log, hb_dt = (True, '', 0)
     # anything that broke => boosted search budget
     boost = 1 if (proof_ok and not untied) else P.get('boost', 4)
-    for feat in sorted(set(r.get('features', '') for r in runs)):
+    for feat in sorted(set(r.get('features', '') for r in runs), reverse=True):
         fb = sorted(set(r['bin'] for r in runs if r.get('features', '') == feat))
         if not fb:
             continue
